@@ -20,7 +20,10 @@ import (
 	"verif/simrt"
 )
 
-type c20 struct{ env *Env }
+type c20 struct {
+	env    *Env
+	spawns bool
+}
 
 func init() { register(&c20{}) }
 
@@ -45,12 +48,16 @@ func (c *c20) Assumptions() []string {
 }
 
 func (c *c20) ProbeNames() []string {
-	return []string{"pattern_with_star", "pattern_with_two_or_more_stars_in_segment", "absolute_pattern", "wildcard_directory_segment", "expected_set_nonempty", "match_requires_non_first_occurrence", "directory_and_file_share_stem", "directory_name_matches_file_segment", "empty_directory"}
+	return []string{"pattern_with_star", "pattern_with_two_or_more_stars_in_segment", "absolute_pattern", "wildcard_directory_segment", "expected_set_nonempty", "match_requires_non_first_occurrence", "directory_and_file_share_stem", "directory_name_matches_file_segment", "empty_directory", "large_directory"}
 }
 
 func (c *c20) SweepPrefix(string, uint64) []uint64 { return nil }
 func (c *c20) SweepCount(string) uint64            { return 0 }
-func (c *c20) Init(env *Env) error                 { c.env = env; return nil }
+func (c *c20) Init(env *Env) error {
+	c.env = env
+	c.spawns = treeSpawns(env)
+	return nil
+}
 
 type c20node struct {
 	name string
@@ -227,6 +234,16 @@ func (c *c20) Run(ctx *RunCtx) *RunResult {
 	os.RemoveAll(root)
 	os.MkdirAll(root, 0755)
 	tree := c20tree(t, 0)
+	// now and then one directory is large: more entries than any single directory read returns at once
+	if t.Draw(40) == 1 {
+		big := &c20node{name: "big", dir: true}
+		n := t.Range(120, 300)
+		for i := 0; i < n; i++ {
+			big.kids = append(big.kids, &c20node{name: fmt.Sprintf("f%d.%s", i, []string{"txt", "a", "b.txt"}[i%3])})
+		}
+		tree = append(tree, big)
+		ctx.Count("large_directory", 1)
+	}
 	c20materialise(root, tree)
 	var fileList, dirList []string
 	c20paths("", tree, &fileList, &dirList)
@@ -253,7 +270,7 @@ func (c *c20) Run(ctx *RunCtx) *RunResult {
 	}
 	emptyDirs(tree)
 	all := append(append([]string{}, fileList...), dirList...)
-	simrt.Reset(1, nil, 1)
+	simrt.Reset(1, soloPlan(t, c.spawns, 400), 1)
 	simrt.Solo()
 	evh := hashStr(strings.Join(all, "|"))
 	sig := []uint64{evh}
